@@ -419,12 +419,12 @@ fn main() {
     quiet_panics();
     let dir = args.out.join("raftdir");
     let cx = Ctx { rt: tokio::runtime::Builder::new_current_thread().enable_all().build().unwrap(), dir };
-    let mut out = Out::new(&args, "From Verif Require Import RaftLog.", "RaftLog.case", "RaftLog.check_case", 250);
+    let mut out = Out::new(&args, "From Verif Require Import RaftLog.", "RaftLog.case", "RaftLog.check_case", 300);
     out.rule = "alphabet A(i<=5,t<=3) = 35 operations (append [(i,t)], delete_from i, snapshot (i,t)); reduced alphabet \
                 A(3,2) = 15. Seq cases carry get_entry 0..6, get_entries (0,7) (2,5) (0,max), last index/term and \
                 snapshot metadata after EVERY operation; Block cases enumerate every extension of a prefix by `depth` \
                 operations on both sides and compare a 64-bit fold of the final observations. quick: Seq exhaustive \
-                length<=2 over A(5,3) + a seeded 1/10 sample of length 3 + 2500 random (length<=8, multi-entry appends, \
+                length<=2 over A(5,3) + a seeded 1/16 sample of length 3 + 1500 random (length<=8, multi-entry appends, \
                 extreme indices); Block: all of length 3 over A(5,3), all of length 4 and 5 over A(3,2). thorough: Seq \
                 exhaustive length<=3 + 20000 random; Block: all of length 4 over A(5,3), all of length 4,5,6 over A(3,2). \
                 Non-trivial = at least one operation; distinct by case text."
@@ -437,11 +437,11 @@ fn main() {
     }
     let mut sel = Rng::new(args.seed ^ 0x31);
     for s in all_seqs(5, 3, 3) {
-        if args.thorough || sel.chance(1, 10) {
+        if args.thorough || sel.chance(1, 16) {
             light.push(Job::Seq(s));
         }
     }
-    let nrand = if args.thorough { 20000 } else { 2500 };
+    let nrand = if args.thorough { 20000 } else { 1500 };
     for c in 0..nrand {
         let mut r = Rng::for_case(args.seed, c);
         light.push(Job::Seq(random_seq(&mut r)));
